@@ -999,6 +999,11 @@ func fromJSONTree(fr *frame, t types.Type, tree value) value {
 		case bool:
 			return iface{t: tBool, v: x}
 		case int64:
+			if ex(fr).jsonStdNumbers {
+				// encoding/json decodes every number into an interface{} as float64
+				// (k8s.io/apimachinery/pkg/util/json turns integral ones into int64)
+				return iface{t: tFloat64, v: float64(x)}
+			}
 			return iface{t: tInt64, v: x}
 		case float64:
 			return iface{t: tFloat64, v: x}
@@ -1234,8 +1239,13 @@ func init() {
 	for _, n := range []string{"k8s.io/apimachinery/pkg/util/json.Marshal", "encoding/json.Marshal"} {
 		externals[n] = marshal
 	}
-	for _, n := range []string{"k8s.io/apimachinery/pkg/util/json.Unmarshal", "encoding/json.Unmarshal"} {
-		externals[n] = unmarshal
+	externals["k8s.io/apimachinery/pkg/util/json.Unmarshal"] = unmarshal
+	externals["encoding/json.Unmarshal"] = func(fr *frame, args []value) value {
+		e := ex(fr)
+		saved := e.jsonStdNumbers
+		e.jsonStdNumbers = true
+		defer func() { e.jsonStdNumbers = saved }()
+		return unmarshal(fr, args)
 	}
 }
 
